@@ -56,7 +56,21 @@ func newSimWorld(sc *Scenario) *simWorld {
 				if rc, ok := k.GetRequestContext(ctx, id); ok && sc.Rig.ReentrantSelfStart && err != nil {
 					_ = k.StartRequestContext(ctx, id, rc.Consumer)
 				}
-				if rc, ok := k.GetRequestContext(ctx, id); ok && sc.Rig.ReentrantSelfKill && err != nil {
+				if sc.Rig.ReentrantRespStartSibs && err != nil {
+				var others [][]byte
+				var consumers []sdk.AccAddress
+				k.IterateRequestContexts(ctx, func(oid tmbytes.HexBytes, oc st.RequestContext) bool {
+					if oc.ModuleName == mod && !bytes.Equal(oid, id) {
+						others = append(others, append([]byte{}, oid...))
+						consumers = append(consumers, oc.Consumer)
+					}
+					return false
+				})
+				for i := range others {
+					_ = k.StartRequestContext(ctx, others[i], consumers[i])
+				}
+			}
+			if rc, ok := k.GetRequestContext(ctx, id); ok && sc.Rig.ReentrantSelfKill && err != nil {
 					_ = k.KillRequestContext(ctx, id, rc.Consumer)
 				}
 				if sc.Rig.Reentrant && err != nil {
@@ -146,10 +160,14 @@ func newSimWorld(sc *Scenario) *simWorld {
 		// host chain with a token module: the application's own keeper (end of block, module manager) asks the
 		// exchange-rate service registered here; messages and module calls go through a keeper over the same stores
 		// that carries the token keeper (the end-of-block code never consults it)
-		_ = k.RegisterModuleService(st.RegisterModuleName, fxService(sc.Rig.FX))
+		if !sc.Rig.FX.NoService {
+			_ = k.RegisterModuleService(st.RegisterModuleName, fxService(sc.Rig.FX))
+		}
 		fk := servicekeeper.NewKeeper(app.AppCodec(), app.GetKey(st.StoreKey), app.AccountKeeper, app.BankKeeper, fxTokenKeeper{},
 			app.GetSubspace(st.ModuleName), authtypes.FeeCollectorName)
-		_ = fk.RegisterModuleService(st.RegisterModuleName, fxService(sc.Rig.FX))
+		if !sc.Rig.FX.NoService {
+			_ = fk.RegisterModuleService(st.RegisterModuleName, fxService(sc.Rig.FX))
+		}
 		reg(fk)
 		w.handler = service.NewHandler(fk)
 		w.mk = fk
